@@ -613,7 +613,7 @@ class RealEnc:
         Exponent laws are applied syntactically: x^e = P * x^(e - e0) for an anchor atom P = x^e0
         of the same base whose exponent differs by an integer constant (x != 0 on the domain)."""
         is_int = isinstance(expo, int)
-        if is_int and abs(expo) <= 16:
+        if is_int and abs(expo) <= 48:
             return q_pow(base, expo) if expo > 0 else (Q(_ONE) if expo == 0 else q_recip(q_pow(base, -expo)))
         for (b, e, v) in self.pows:
             if not b.same(base):
